@@ -83,9 +83,9 @@ def main():
         "setup_cmd": "./run_check.sh setup",
         "hooks": {
             "guard": "verif",
-            "enable": "no hooks exist: kvql.Storage/kvql.Cursor and the exported knobs PlanBatchSize/EnableFieldCache are the seams; checks build /repo's working tree as is (go build, and go build -race for C19)",
+            "enable": "go build -tags verif (run_check.sh builds every check that way); the tag compiles simyield_verif.go (package variable kvql.SimYield, nil by default) instead of simyield_off.go (empty inlinable simYield), making the 19 one-line simYield(site) calls in the library scheduling points for C19's token scheduler. All other seams are existing interfaces (kvql.Storage/kvql.Cursor) and exported knobs (PlanBatchSize, EnableFieldCache).",
             "baseline_off_cmd": "cd /repo && go test -vet=off -count=1 ./...",
-            "source_commits": [],
+            "source_commits": ["5a5463f"],
             "add_only": True,
         },
         "engines": [{
